@@ -287,8 +287,12 @@ def integer_numpy_array_check(value: Union[str, List[str]],
         # _parse_int_range_expr. We simple apply
         # integer_numpy_array_check on each element in the list to do
         # the work and stack horizontally all the results.
-        out = np.hstack(
-            [integer_numpy_array_check(a, min, max) for a in value])
+        # An item that expands to nothing (such as '3:1') comes back as an
+        # empty list, which numpy would turn into a float array
+        out = np.hstack([
+            np.array(integer_numpy_array_check(a, min, max), dtype=int)
+            for a in value
+        ])
 
     else:
         # It its not a list, it can be either a single number of a 'range
